@@ -1,6 +1,7 @@
 import YarlProofs.C06Headline
 import YarlProofs.C11Ctor
 import YarlProofs.C03Netloc
+import YarlProofs.C06Decode
 /-!
   C06HeadlineMore.lean — AUDIT LAYER for property C06, continuation of C06Headline.lean (the theorems here need
   C11Ctor.lean, which imports C06Headline.lean; this file is a leaf, nobody imports it).
@@ -12,7 +13,24 @@ import YarlProofs.C03Netloc
   build(), with_user, with_password, with_path, with_name, with_fragment, with_query, / or joinpath reads back
   unchanged from the matching accessor (lone surrogates, and dot segments under an authority, excepted)."
 
-  What is here: GAPS 4 of C06Headline.lean.  `C06_headline_with_user_password_readback` there speaks about a record
+  What is here: GAPS 4 and GAPS 2 of C06Headline.lean.
+  GAPS 2 (second half of this file; needs C06Decode.lean, added after C06Headline.lean was written): the decoded
+  accessors equal an INDEPENDENT, textbook specification of UTF-8 percent-decoding, `Rfc.pctUtf8Decode keep plusIsSpace`
+  (C06Decode.lean, first section, ≈ 40 lines; no reference to the unquoter state machine, to `decodeBuf`, `DecodeSpec`,
+  `takeEscape`, `restoreCh` or the quoters; it uses the model's UTF-8 ENCODER `utf8` only):
+    * scan left to right; a maximal run of well-formed escapes `%XX` (`Rfc.escapeRun`) is turned into bytes;
+    * the bytes are decoded by maximal well-formed subsequences (`Rfc.decodeEscapes` / `Rfc.utf8Head`: the sequence
+      announced by the lead byte must be exactly the UTF-8 encoding of the code point it carries); a decoded code point
+      `c` is emitted literally unless `keep c`, in which case the library RE-QUOTES it — the output is its upper-case
+      percent-encoding `Rfc.pctEncode c`, whatever hex case the input used (`%2f` → `%2F`);
+    * an escape that starts no well-formed sequence is copied VERBATIM, as written; a `%` not followed by two hex digits
+      is literal; '+' becomes ' ' iff `plusIsSpace`.
+  `keepNone` (nothing stays encoded), `keepSlashPercent` ('/' and '%'), `keepQsDelims` ('+' '=' '&' ';'): the three `keep`
+  sets; `UArgs.keeps a b` / `UArgs.plusIsSpace a`: the `keep` set and '+' flag READ OFF the table of an `_Unquoter`
+  configuration.  `Rfc.escapeBytes s`: the bytes of all well-formed escapes of `s`, in order.  `Rfc.hexValue c`: the
+  value of a hex digit (either case), `none` otherwise.  `restoreCh d1 d2 = some v`: `%d1d2` is a well-formed escape of
+  the byte `v`; `isCont v`: `v` is a UTF-8 continuation byte (0x80…0xBF).
+  GAPS 4 (first half): `C06_headline_with_user_password_readback` there speaks about a record
   WITHOUT cache whose stored authority is literally `make_netloc(user, pw, host, port)`.  Here the same read-back is
   stated for the URLs the library produces: constructor results (pre-filled cache included) and every URL that
   satisfies the authority invariant `NetlocCanon`.
@@ -87,5 +105,253 @@ theorem C06_headline_with_user_password_readback_from_input (e : Env) (s : Str) 
     (x ≠ [] → ∃ v, withUser e u (some x) = .ok v ∧ user e v = .ok (some x)) ∧
     (∃ v, withPassword e u (some x) = .ok v ∧ password e v = .ok (some x)) :=
   C06_netlocCanon_user_password_readback e u (C03_encodeUrl_netlocCanon e s u pt hs hu hpt ha) hne x hx hn
+
+/-! ## Sentence 1a — "Each decoded accessor (user, password, path, path_safe, parts, name, suffix, query, query_string,
+    fragment) equals the UTF-8 percent-decoding of the corresponding raw component"   (GAPS 2 of C06Headline.lean) -/
+
+section DecodeHeadline
+open Rfc DecMore DecLemmas SpecLemmas UnquoteEquiv
+
+/-- the specification is the textbook one.  `Rfc.utf8Head bs = some (c, k)` iff `c` is a Unicode scalar value
+    (≤ U+10FFFF, no surrogate) whose UTF-8 encoding — `k` bytes — is a prefix of `bs`; UTF-8 being a prefix code there
+    is at most one such `c`, and `none` iff there is none (stray continuation byte, truncated, overlong, surrogate,
+    above U+10FFFF, `C0`/`C1`/`F5`…`FF`).  The specification's own hex tables and percent-encoder agree with the
+    library's (`_from_hex`, `_to_hex`, `_write_utf8`).  Cites C06_utf8Head_textbook, C06_spec_hex_agrees. -/
+theorem C06_headline_spec_is_textbook :
+    (∀ (bs : List Nat) c k, utf8Head bs = some (c, k) ↔
+      c ≤ 0x10FFFF ∧ isSurrogate c = false ∧ k = (utf8 c).length ∧ ∃ rest, bs = utf8 c ++ rest) ∧
+    (∀ bs : List Nat, utf8Head bs = none ↔
+      ∀ c, c ≤ 0x10FFFF → isSurrogate c = false → ∀ rest, bs ≠ utf8 c ++ rest) ∧
+    (∀ c, hexValue c = fromHex c) ∧ (∀ v, hexDigit v = toHex v) ∧
+    (∀ c, pctEncode c = writeUtf8 c) ∧ (∀ c, c < 128 → pctEncode c = pct c) :=
+  ⟨fun bs => (C06_utf8Head_textbook bs).1, fun bs => (C06_utf8Head_textbook bs).2, C06_spec_hex_agrees⟩
+
+/-- "the UTF-8 percent-decoding": each of the four generated unquoters — and the project specification `DecodeSpec` of
+    its table, C06_headline_unquoter_meets_spec — IS the textbook decoding `Rfc.pctUtf8Decode`, for EVERY input, on
+    both backends, with the `keep` set and the '+' flag of each table EXPLICIT: UNQUOTER and PATH_UNQUOTER keep nothing
+    encoded, PATH_SAFE_UNQUOTER keeps '/' and '%', QS_UNQUOTER keeps '+' '=' '&' ';' and reads '+' as a space.
+    Cites C06_unquoter_is_pctUtf8, C06_decodeSpec_is_pctUtf8. -/
+theorem C06_headline_unquoter_is_pct_utf8_decoding (b : Backend) (s : Str) :
+    (Gen.UNQUOTER.run b s = pctUtf8Decode keepNone false s ∧
+     Gen.PATH_UNQUOTER.run b s = pctUtf8Decode keepNone false s ∧
+     Gen.PATH_SAFE_UNQUOTER.run b s = pctUtf8Decode keepSlashPercent false s ∧
+     Gen.QS_UNQUOTER.run b s = pctUtf8Decode keepQsDelims true s) ∧
+    (DecodeSpec b (Gen.UNQUOTER.tab b) s = pctUtf8Decode keepNone false s ∧
+     DecodeSpec b (Gen.PATH_UNQUOTER.tab b) s = pctUtf8Decode keepNone false s ∧
+     DecodeSpec b (Gen.PATH_SAFE_UNQUOTER.tab b) s = pctUtf8Decode keepSlashPercent false s ∧
+     DecodeSpec b (Gen.QS_UNQUOTER.tab b) s = pctUtf8Decode keepQsDelims true s) :=
+  ⟨C06_unquoter_is_pctUtf8 b s, C06_decodeSpec_is_pctUtf8 b s⟩
+
+/-- which characters each generated table keeps encoded (its "two re-quote character sets"), COMPUTED from the
+    generated tables on both backends (`UArgs.keeps`: a decoded character is sent back through the inner `_Quoter()` /
+    `_Quoter(qs=True)`; it stays an escape iff that quoter's table does not keep it literal): UNQUOTER and
+    PATH_UNQUOTER keep NOTHING encoded (PATH_UNQUOTER has `unsafe="+"`, but the inner quoter writes '+' literally:
+    `%2B` → '+'); PATH_SAFE_UNQUOTER keeps exactly '/' and '%'; QS_UNQUOTER keeps exactly '+' '=' '&' ';' and is the only
+    one where a literal '+' is a space.  General form: ANY `_Unquoter` whose `unsafe` is at most "+" and whose `ignore` is
+    ASCII (every generated one) computes the textbook decoding with the `keep` set and '+' flag read off its table.
+    Cites C06_unquoter_keep_sets, C06_generated_unquoters_shape, C06_unquoter_is_pctUtf8_of_table. -/
+theorem C06_headline_unquoter_keep_sets (b : Backend) :
+    ((Gen.UNQUOTER.keeps b = keepNone ∧ Gen.UNQUOTER.plusIsSpace = false) ∧
+     (Gen.PATH_UNQUOTER.keeps b = keepNone ∧ Gen.PATH_UNQUOTER.plusIsSpace = false) ∧
+     (Gen.PATH_SAFE_UNQUOTER.keeps b = keepSlashPercent ∧ Gen.PATH_SAFE_UNQUOTER.plusIsSpace = false) ∧
+     (Gen.QS_UNQUOTER.keeps b = keepQsDelims ∧ Gen.QS_UNQUOTER.plusIsSpace = true)) ∧
+    (∀ ua ∈ Gen.allUnquoters, (∀ x ∈ ua.unsafeS, x = 43) ∧ (∀ x ∈ ua.ignoreS, x < 128)) ∧
+    (∀ (ua : UArgs), (∀ x ∈ ua.unsafeS, x = 43) → (∀ x ∈ ua.ignoreS, x < 128) → ∀ s : Str,
+      ua.run b s = pctUtf8Decode (ua.keeps b) ua.plusIsSpace s ∧
+      DecodeSpec b (ua.tab b) s = pctUtf8Decode (ua.keeps b) ua.plusIsSpace s) ∧
+    (keepNone = fun _ => false) ∧ (keepSlashPercent = fun c => c == 0x2F || c == 0x25) ∧
+    (keepQsDelims = fun c => c == 0x2B || c == 0x3D || c == 0x26 || c == 0x3B) :=
+  ⟨C06_unquoter_keep_sets b, C06_generated_unquoters_shape,
+   fun ua hun hig s => C06_unquoter_is_pctUtf8_of_table ua b hun hig s, rfl, rfl, rfl⟩
+
+/-- "Each decoded accessor (user, password, path, path_safe, parts, name, suffix, … query_string, fragment) equals the
+    UTF-8 percent-decoding of the corresponding raw component" — with the INDEPENDENT specification on the right-hand
+    side; no hypothesis on the URL record.  (`query`, the MultiDict accessor, is `parse_qsl`, not this decoder:
+    C06_headline_query_accessor_is_form_decoding, GAPS 1.  An empty raw path reads "" without and "/" with an authority.)
+    Cites C06_accessors_are_pctUtf8_decodings. -/
+theorem C06_headline_accessors_are_pct_utf8_decodings (e : Env) (u : Url) :
+    user e u = (rawUser e u).map (Option.map (pctUtf8Decode keepNone false)) ∧
+    password e u = (rawPassword e u).map (Option.map (pctUtf8Decode keepNone false)) ∧
+    pathDecoded e u = (if u.path.isEmpty then (if u.netloc.isEmpty then [] else [47])
+                       else pctUtf8Decode keepNone false u.path) ∧
+    pathSafe e u = (if u.path.isEmpty then (if u.netloc.isEmpty then [] else [47])
+                    else pctUtf8Decode keepSlashPercent false u.path) ∧
+    partsDecoded e u = (rawParts u).map (pctUtf8Decode keepNone false) ∧
+    name e u = (rawName u).map (pctUtf8Decode keepNone false) ∧
+    suffix e u = (rawSuffix u).map (pctUtf8Decode keepNone false) ∧
+    suffixes e u = (rawSuffixes u).map (List.map (pctUtf8Decode keepNone false)) ∧
+    queryString e u = pctUtf8Decode keepQsDelims true u.query ∧
+    fragmentDecoded e u = pctUtf8Decode keepNone false u.fragment :=
+  C06_accessors_are_pctUtf8_decodings e u
+
+/-- the valid-UTF-8 corollary that C06_headline_decoding_is_utf8 lacked, for QS_UNQUOTER (`query_string`) and
+    PATH_SAFE_UNQUOTER (`path_safe`): when (form-)decoding the raw text to bytes gives the UTF-8 encoding of a text `t`,
+    and NO escape of the raw text is one of the kept `%2B %3D %26 %3B` resp. `%2F %25`, the unquoter — and the accessor —
+    returns exactly `t`.  Also: '+' as space = decoding the string in which every literal '+' has been replaced by a
+    space, and the textbook decoding does not depend on `keep` for a string none of whose escapes is a kept character.
+    Cites C06_qs_decodes_utf8, C06_path_safe_decodes_utf8, C06_query_string_path_safe_decode_utf8,
+    C06_pct_plus_is_replace, C06_pct_keep_irrelevant. -/
+theorem C06_headline_query_string_path_safe_decode_utf8 (b : Backend) (e : Env) (u : Url) :
+    (∀ s t, PyStr s → NoSurrogate s → PyStr t → NoSurrogate t → pctDecodeQs s = utf8s t →
+      (∀ v ∈ escapeBytes s, keepQsDelims v = false) →       -- needed: …_decode_utf8_fails_for_kept_escape
+      Gen.QS_UNQUOTER.run b s = t) ∧
+    (∀ s t, PyStr s → NoSurrogate s → PyStr t → NoSurrogate t → pctDecode s = utf8s t →
+      (∀ v ∈ escapeBytes s, keepSlashPercent v = false) →   -- needed: …_decode_utf8_fails_for_kept_escape
+      Gen.PATH_SAFE_UNQUOTER.run b s = t) ∧
+    (∀ t, PyStr u.query → NoSurrogate u.query → PyStr t → NoSurrogate t → pctDecodeQs u.query = utf8s t →
+      (∀ v ∈ escapeBytes u.query, keepQsDelims v = false) → queryString e u = t) ∧
+    (∀ t, u.path ≠ [] → PyStr u.path → NoSurrogate u.path → PyStr t → NoSurrogate t →
+      pctDecode u.path = utf8s t → (∀ v ∈ escapeBytes u.path, keepSlashPercent v = false) →
+      pathSafe e u = t) ∧
+    (∀ (keep : Nat → Bool) (s : Str), pctUtf8Decode keep true s = pctUtf8Decode keep false (plusToSpace s)) ∧
+    (∀ (keep : Nat → Bool) (plus : Bool), (∀ c, keep c = true → c < 128) → ∀ s : Str,
+      (∀ v ∈ escapeBytes s, keep v = false) → pctUtf8Decode keep plus s = pctUtf8Decode keepNone plus s) :=
+  ⟨fun s t hs hsn ht htn h hk => C06_qs_decodes_utf8 b s t hs hsn ht htn h hk,
+   fun s t hs hsn ht htn h hk => C06_path_safe_decodes_utf8 b s t hs hsn ht htn h hk,
+   (C06_query_string_path_safe_decode_utf8 e u).1, (C06_query_string_path_safe_decode_utf8 e u).2,
+   C06_pct_plus_is_replace, fun keep plus hk s h => C06_pct_keep_irrelevant keep plus hk s h⟩
+
+/-- the guards "no escape of a kept character" are needed (and are what "keeping" means): "a%3Db" form-decodes to the
+    bytes of "a=b" but `query_string` keeps "a%3Db"; "a%2Fb" decodes to the bytes of "a/b" but `path_safe` keeps "a%2Fb".
+    Cites C06_qs_decodes_utf8_needs_no_kept. -/
+theorem C06_headline_query_string_path_safe_decode_utf8_fails_for_kept_escape (b : Backend) :
+    pctDecodeQs "a%3Db".toStr = utf8s "a=b".toStr ∧ Gen.QS_UNQUOTER.run b "a%3Db".toStr = "a%3Db".toStr ∧
+    pctDecode "a%2Fb".toStr = utf8s "a/b".toStr ∧ Gen.PATH_SAFE_UNQUOTER.run b "a%2Fb".toStr = "a%2Fb".toStr :=
+  C06_qs_decodes_utf8_needs_no_kept b
+
+/-! ## Sentence 1b — "with malformed or undecodable escapes kept verbatim" — IN CONTEXT, over the independent
+    specification (hence, by the theorems above, for every unquoter and accessor) -/
+
+/-- "malformed or undecodable escapes kept verbatim": the seven textbook cases, each for EVERY `keep` set, '+' flag, and
+    ANY text before (`s1`) and after (`s2`): `%zz`; `%4`; a trailing `%`; `%FF`; truncated `%E2%82`; overlong `%C0%AF`;
+    surrogate bytes `%ED%A0%80` — stay exactly as written, and `s1`, `s2` are decoded as they are on their own.
+    SIDE CONDITIONS the module reports (both needed — what follows could complete the escape / the sequence):
+    `%4` must not be followed by a hex digit (`%4` + "1…" IS the escape `%41`); `%E2%82` must not be followed by the
+    escape of a continuation byte (`%E2%82` + `%AC` is the complete sequence of '€': next theorem).
+    Cites C06_pct_malformed_examples. -/
+theorem C06_headline_malformed_undecodable_verbatim_in_context (keep : Nat → Bool) (plus : Bool) (s1 s2 : Str) :
+    pctUtf8Decode keep plus (s1 ++ "%zz".toStr ++ s2) =
+      pctUtf8Decode keep plus s1 ++ "%zz".toStr ++ pctUtf8Decode keep plus s2 ∧
+    ((∀ c, s2.head? = some c → hexValue c = none) →         -- `s2` does not start with a hex digit
+      pctUtf8Decode keep plus (s1 ++ "%4".toStr ++ s2) =
+        pctUtf8Decode keep plus s1 ++ "%4".toStr ++ pctUtf8Decode keep plus s2) ∧
+    pctUtf8Decode keep plus (s1 ++ "%".toStr) = pctUtf8Decode keep plus s1 ++ "%".toStr ∧
+    pctUtf8Decode keep plus (s1 ++ "%FF".toStr ++ s2) =
+      pctUtf8Decode keep plus s1 ++ "%FF".toStr ++ pctUtf8Decode keep plus s2 ∧
+    -- `s2` does not start with the escape of a continuation byte
+    ((∀ d1 d2 r v, s2 = 37 :: d1 :: d2 :: r → restoreCh d1 d2 = some v → isCont v = false) →
+      pctUtf8Decode keep plus (s1 ++ "%E2%82".toStr ++ s2) =
+        pctUtf8Decode keep plus s1 ++ "%E2%82".toStr ++ pctUtf8Decode keep plus s2) ∧
+    pctUtf8Decode keep plus (s1 ++ "%C0%AF".toStr ++ s2) =
+      pctUtf8Decode keep plus s1 ++ "%C0%AF".toStr ++ pctUtf8Decode keep plus s2 ∧
+    pctUtf8Decode keep plus (s1 ++ "%ED%A0%80".toStr ++ s2) =
+      pctUtf8Decode keep plus s1 ++ "%ED%A0%80".toStr ++ pctUtf8Decode keep plus s2 :=
+  C06_pct_malformed_examples keep plus s1 s2
+
+/-- the two side conditions are needed: `%4` followed by '1' is the escape of 'A'; `%E2%82` followed by `%AC` is the
+    complete sequence of U+20AC.  (Evaluated on the specification; by C06_headline_unquoter_is_pct_utf8_decoding this is
+    what every unquoter does.) -/
+theorem C06_headline_malformed_verbatim_side_conditions_needed :
+    pctUtf8Decode keepNone false ("%4".toStr ++ "1".toStr) = "A".toStr ∧
+    pctUtf8Decode keepNone false "%4".toStr ++ pctUtf8Decode keepNone false "1".toStr = "%41".toStr ∧
+    pctUtf8Decode keepNone false ("%E2%82".toStr ++ "%AC".toStr) = [0x20AC] ∧
+    pctUtf8Decode keepNone false "%E2%82".toStr ++ pctUtf8Decode keepNone false "%AC".toStr = "%E2%82%AC".toStr := by
+  decide +kernel
+
+/-- the general forms behind the seven cases, for every `keep`, '+' flag, `s1`, `s2`: a '%' that is not followed by two
+    hex digits is literal; '+' is a space iff `plusIsSpace`; the two parts of a concatenation decode independently when
+    the second starts neither with a hex digit nor with the escape of a continuation byte.
+    Cites C06_pct_malformed_verbatim, C06_pct_plus, C06_pct_append.  (Undecodable runs in general:
+    C06_pct_invalid_verbatim, C06_pct_truncated_verbatim, C06_pct_surrogate_verbatim, C06_pct_valid_sequence,
+    C06Decode.lean, not restated.) -/
+theorem C06_headline_malformed_plus_append_in_context (keep : Nat → Bool) (plus : Bool) (s1 s2 : Str) :
+    (¬ StartsEscape (37 :: s2) →
+      pctUtf8Decode keep plus (s1 ++ 37 :: s2) = pctUtf8Decode keep plus s1 ++ 37 :: pctUtf8Decode keep plus s2) ∧
+    pctUtf8Decode keep plus (s1 ++ 43 :: s2) =
+      pctUtf8Decode keep plus s1 ++ (if plus = true then 32 else 43) :: pctUtf8Decode keep plus s2 ∧
+    ((∀ c, s2.head? = some c → hexValue c = none) →
+      (∀ d1 d2 r v, s2 = 37 :: d1 :: d2 :: r → restoreCh d1 d2 = some v → isCont v = false) →
+      pctUtf8Decode keep plus (s1 ++ s2) = pctUtf8Decode keep plus s1 ++ pctUtf8Decode keep plus s2) :=
+  ⟨C06_pct_malformed_verbatim keep plus s1 s2, C06_pct_plus keep plus s1 s2, C06_pct_append keep plus s1 s2⟩
+
+/-! ## Sentences 1c, 1d — "'+' meaning space only in queries, and path_safe keeping %2F and %25" — on the unquoters
+    themselves, in ANY context -/
+
+/-- the keep sets and the '+' rule seen on the four generated unquoters (both backends; `s1`, `s2` arbitrary):
+    * PATH_SAFE_UNQUOTER: `%2F` → `%2F`, `%2f` → `%2F` (RE-QUOTED, upper case — "keeping" is not "verbatim"), `%25` →
+      `%25`, `%2B` → '+', '+' → '+';
+    * PATH_UNQUOTER: '+' → '+', `%2B` → '+', `%2F` → '/', `%25` → '%';
+    * QS_UNQUOTER: '+' → ' ', `%2B` → `%2B`, `%26` → `%26`, `%3D` → `%3D`, `%3d` → `%3D`, `%3B` → `%3B`, `%20` → ' ',
+      `%2F` → '/';
+    * UNQUOTER: '+' → '+', `%2B` → '+', `%26` → '&'.
+    Cites C06_unquoter_keep_examples. -/
+theorem C06_headline_keep_and_plus_in_context (b : Backend) (s1 s2 : Str) :
+    (Gen.PATH_SAFE_UNQUOTER.run b (s1 ++ "%2F".toStr ++ s2) =
+      Gen.PATH_SAFE_UNQUOTER.run b s1 ++ "%2F".toStr ++ Gen.PATH_SAFE_UNQUOTER.run b s2 ∧
+     Gen.PATH_SAFE_UNQUOTER.run b (s1 ++ "%2f".toStr ++ s2) =
+      Gen.PATH_SAFE_UNQUOTER.run b s1 ++ "%2F".toStr ++ Gen.PATH_SAFE_UNQUOTER.run b s2 ∧
+     Gen.PATH_SAFE_UNQUOTER.run b (s1 ++ "%25".toStr ++ s2) =
+      Gen.PATH_SAFE_UNQUOTER.run b s1 ++ "%25".toStr ++ Gen.PATH_SAFE_UNQUOTER.run b s2 ∧
+     Gen.PATH_SAFE_UNQUOTER.run b (s1 ++ "%2B".toStr ++ s2) =
+      Gen.PATH_SAFE_UNQUOTER.run b s1 ++ "+".toStr ++ Gen.PATH_SAFE_UNQUOTER.run b s2 ∧
+     Gen.PATH_SAFE_UNQUOTER.run b (s1 ++ "+".toStr ++ s2) =
+      Gen.PATH_SAFE_UNQUOTER.run b s1 ++ "+".toStr ++ Gen.PATH_SAFE_UNQUOTER.run b s2) ∧
+    (Gen.PATH_UNQUOTER.run b (s1 ++ "+".toStr ++ s2) =
+      Gen.PATH_UNQUOTER.run b s1 ++ "+".toStr ++ Gen.PATH_UNQUOTER.run b s2 ∧
+     Gen.PATH_UNQUOTER.run b (s1 ++ "%2B".toStr ++ s2) =
+      Gen.PATH_UNQUOTER.run b s1 ++ "+".toStr ++ Gen.PATH_UNQUOTER.run b s2 ∧
+     Gen.PATH_UNQUOTER.run b (s1 ++ "%2F".toStr ++ s2) =
+      Gen.PATH_UNQUOTER.run b s1 ++ "/".toStr ++ Gen.PATH_UNQUOTER.run b s2 ∧
+     Gen.PATH_UNQUOTER.run b (s1 ++ "%25".toStr ++ s2) =
+      Gen.PATH_UNQUOTER.run b s1 ++ "%".toStr ++ Gen.PATH_UNQUOTER.run b s2) ∧
+    (Gen.QS_UNQUOTER.run b (s1 ++ "+".toStr ++ s2) =
+      Gen.QS_UNQUOTER.run b s1 ++ " ".toStr ++ Gen.QS_UNQUOTER.run b s2 ∧
+     Gen.QS_UNQUOTER.run b (s1 ++ "%2B".toStr ++ s2) =
+      Gen.QS_UNQUOTER.run b s1 ++ "%2B".toStr ++ Gen.QS_UNQUOTER.run b s2 ∧
+     Gen.QS_UNQUOTER.run b (s1 ++ "%26".toStr ++ s2) =
+      Gen.QS_UNQUOTER.run b s1 ++ "%26".toStr ++ Gen.QS_UNQUOTER.run b s2 ∧
+     Gen.QS_UNQUOTER.run b (s1 ++ "%3D".toStr ++ s2) =
+      Gen.QS_UNQUOTER.run b s1 ++ "%3D".toStr ++ Gen.QS_UNQUOTER.run b s2 ∧
+     Gen.QS_UNQUOTER.run b (s1 ++ "%3d".toStr ++ s2) =
+      Gen.QS_UNQUOTER.run b s1 ++ "%3D".toStr ++ Gen.QS_UNQUOTER.run b s2 ∧
+     Gen.QS_UNQUOTER.run b (s1 ++ "%3B".toStr ++ s2) =
+      Gen.QS_UNQUOTER.run b s1 ++ "%3B".toStr ++ Gen.QS_UNQUOTER.run b s2 ∧
+     Gen.QS_UNQUOTER.run b (s1 ++ "%20".toStr ++ s2) =
+      Gen.QS_UNQUOTER.run b s1 ++ " ".toStr ++ Gen.QS_UNQUOTER.run b s2 ∧
+     Gen.QS_UNQUOTER.run b (s1 ++ "%2F".toStr ++ s2) =
+      Gen.QS_UNQUOTER.run b s1 ++ "/".toStr ++ Gen.QS_UNQUOTER.run b s2) ∧
+    (Gen.UNQUOTER.run b (s1 ++ "+".toStr ++ s2) =
+      Gen.UNQUOTER.run b s1 ++ "+".toStr ++ Gen.UNQUOTER.run b s2 ∧
+     Gen.UNQUOTER.run b (s1 ++ "%2B".toStr ++ s2) =
+      Gen.UNQUOTER.run b s1 ++ "+".toStr ++ Gen.UNQUOTER.run b s2 ∧
+     Gen.UNQUOTER.run b (s1 ++ "%26".toStr ++ s2) =
+      Gen.UNQUOTER.run b s1 ++ "&".toStr ++ Gen.UNQUOTER.run b s2) :=
+  C06_unquoter_keep_examples b s1 s2
+
+/-! ## non-vacuity (GAPS 2 part) -/
+
+/-- the specification computed on one string with every case in it, and the main theorem on that string, both sides
+    computed, both backends -/
+example : ∀ b : Backend,
+    Gen.QS_UNQUOTER.run b "a+%C3%a9%zz%4%2f%25%41%2B%3d%FF%E2%82%C0%AF%ED%A0%80%E2%82%ACx%".toStr =
+      "a ".toStr ++ [233] ++ "%zz%4/%A%2B%3D%FF%E2%82%C0%AF%ED%A0%80".toStr ++ [0x20AC] ++ "x%".toStr ∧
+    pctUtf8Decode keepQsDelims true "a+%C3%a9%zz%4%2f%25%41%2B%3d%FF%E2%82%C0%AF%ED%A0%80%E2%82%ACx%".toStr =
+      "a ".toStr ++ [233] ++ "%zz%4/%A%2B%3D%FF%E2%82%C0%AF%ED%A0%80".toStr ++ [0x20AC] ++ "x%".toStr := by
+  intro b
+  have h := ((C06_headline_unquoter_is_pct_utf8_decoding b
+    "a+%C3%a9%zz%4%2f%25%41%2B%3d%FF%E2%82%C0%AF%ED%A0%80%E2%82%ACx%".toStr).1).2.2.2
+  have h2 : pctUtf8Decode keepQsDelims true "a+%C3%a9%zz%4%2f%25%41%2B%3d%FF%E2%82%C0%AF%ED%A0%80%E2%82%ACx%".toStr =
+      "a ".toStr ++ [233] ++ "%zz%4/%A%2B%3D%FF%E2%82%C0%AF%ED%A0%80".toStr ++ [0x20AC] ++ "x%".toStr := by
+    decide +kernel
+  exact ⟨h.trans h2, h2⟩
+
+/-- the hypotheses of C06_headline_query_string_path_safe_decode_utf8 are satisfiable by non-trivial inputs
+    ("a+b%C3%A9%20c" ↦ "a bé c"), and the conclusion through the headline theorem -/
+example (b : Backend) (e : Env) (u : Url) :
+    Gen.QS_UNQUOTER.run b "a+b%C3%A9%20c".toStr = "a b".toStr ++ [233] ++ " c".toStr :=
+  (C06_headline_query_string_path_safe_decode_utf8 b e u).1 _ _ (by decide) (by decide) (by decide) (by decide)
+    (by decide +kernel) (by decide +kernel)
+
+end DecodeHeadline
 
 end Yarl
